@@ -6,6 +6,8 @@ use std::rc::Rc;
 use std::str::FromStr;
 
 use crate::Span;
+#[cfg(fastrace_verif)]
+use crate::verif::rand;
 use crate::local::local_span_stack::LOCAL_SPAN_STACK;
 
 thread_local! {
